@@ -4,8 +4,8 @@ NOT_BUILT = "check not built yet in this round (design in DESIGN.md section 3); 
 
 
 def fill(claim, na):
-    for p in ["C01", "C02", "C03", "C04", "C06", "C08", "C09", "C10", "C11", "C12", "C13",
-              "C15", "C16", "C18", "C19"]:
+    for p in ["C01", "C02", "C03", "C04", "C06", "C09", "C10", "C11", "C12", "C13",
+              "C15", "C16", "C18"]:
         na(p, NOT_BUILT)
     na("C05", "equality of decoded flux with the sector dump is a statement about decoding arbitrary bit-streams "
               "(gap lengths, sync search, bit order, opcode placement); no clause is visible in the shape of the code "
@@ -30,3 +30,18 @@ def fill(claim, na):
           "Trusts clang AST/CFG, the call-graph closure (virtual calls to all overriders, lambdas attributed to their "
           "enclosing function) and the table of throwing library entry points.",
           "DESIGN.md 3/C07")
+    claim("C08",
+          "clang CFG-based uninitialised-value analysis in both configurations; getopt table/handler/short-string "
+          "agreement folded from the AST; exit-status value set",
+          "Decides, for every command line and input, that option state is initialised in both builds, that no option "
+          "handler can see a NULL optarg, and that main returns 0 or 1 without exit/abort. Does not decide full memory "
+          "safety of the C units.",
+          "Trusts clang's -Wuninitialized family and getopt_long semantics.",
+          "DESIGN.md 3/C08")
+    claim("C19",
+          "assert-condition purity (AST effect analysis, recursive, const-contract for library), configuration "
+          "diff of per-function trees with assert masked, uninitialised-value analysis in both configurations",
+          "Decides the property up to the trusted base: all assert conditions are side-effect free and the NDEBUG and "
+          "assertion-enabled programs are otherwise identical, so the builds can differ only where an assertion fails.",
+          "Trusts glibc's assert expansion shapes and the const-contract of the standard library.",
+          "DESIGN.md 3/C19")
